@@ -54,7 +54,7 @@ func Merge(rep *report.Report, label string, res mc.Result, depth int) {
 var c01Letters = []string{
 	"ADD nh1@D a", "ADD nh1@D b", "REPLACE nh1@D b", "DELETE nh1@D", "ADD nh2@D", "DELETE nh2@D", "ADD nh1@V", "DELETE nh1@V",
 	"ADD nhg1@D {1}", "ADD nhg1@D {1,2}", "REPLACE nhg1@D {2}", "DELETE nhg1@D", "ADD nhg1@V {1}", "DELETE nhg1@V",
-	"ADD v4 p@D ->1", "ADD v4 p@D ->1@V", "REPLACE v4 p@D ->1 meta", "DELETE v4 p@D", "ADD v4 p@V ->1@D", "DELETE v4 p@V",
+	"ADD v4 p@D ->1", "ADD v4 p@D ->1 meta", "ADD v4 p@D ->1@V", "REPLACE v4 p@D ->1 meta", "DELETE v4 p@D", "ADD v4 p@V ->1@D", "DELETE v4 p@V",
 	"ADD v6 q@D ->1", "DELETE v6 q@D",
 	"ADD mpls 100@D ->1", "REPLACE mpls 100@D ->1@V", "DELETE mpls 100@D", "DELETE mpls 2^32+100@D",
 	"FLUSH D", "FLUSH V", "FLUSH all",
@@ -73,6 +73,17 @@ func RunC01(rep *report.Report, tier string) {
 		o := &Options{Letters: letters, NoFwdRefs: nofwd, Checks: Checks{Fold: true}}
 		Search(rep, fmt.Sprintf("rib/forward-refs-%v", !nofwd), o, depth, dl)
 	}
+	for _, name := range []string{"held-operations", "groups-installed", "entries-installed"} {
+		o := &Options{Letters: letters, Checks: Checks{Fold: true}, Init: Alphabet(ribInits[name]...)}
+		Search(rep, "rib/from-"+name, o, depth-1, dl)
+	}
+}
+
+// ribInits are non-initial start states shared by the RIB-tier searches.
+var ribInits = map[string][]string{
+	"held-operations":   {"ADD v4 p@D ->1", "ADD v4 p@D ->1 meta", "ADD v6 q@D ->1", "ADD nhg1@D {1,2}", "ADD v4 p@V ->1@D"},
+	"groups-installed":  {"ADD nh1@D a", "ADD nh2@D", "ADD nh1@V", "ADD nhg1@D {1,2}", "ADD nhg1@V {1}"},
+	"entries-installed": {"ADD nh1@D a", "ADD nh2@D", "ADD nh1@V", "ADD nhg1@D {1,2}", "ADD nhg1@V {1}", "ADD v4 p@D ->1 meta", "ADD v4 p@V ->1@D", "ADD v6 q@D ->1", "ADD mpls 100@D ->1"},
 }
 
 var c02Letters = []string{
@@ -148,13 +159,27 @@ func RunC03(rep *report.Report, tier string) {
 	rep.Set("alphabet", Names(letters))
 	for _, nofwd := range []bool{false, true} {
 		o := &Options{Letters: letters, NoFwdRefs: nofwd, Checks: Checks{Referrers: true}}
-		Search(rep, fmt.Sprintf("rib/forward-refs-%v", !nofwd), o, depth, dl)
+		d := depth
+		if tier != "thorough" && !nofwd {
+			d = depth - 1 // the searches from non-initial states below go deeper where it matters
+		}
+		Search(rep, fmt.Sprintf("rib/forward-refs-%v", !nofwd), o, d, dl)
 	}
+	// from non-initial states: all next-hops and groups installed / additionally every top-level entry installed
+	for name, init := range c03Inits {
+		o := &Options{Letters: letters, Checks: Checks{Referrers: true}, Init: Alphabet(init...)}
+		Search(rep, "rib/from-"+name, o, depth-1, dl)
+	}
+}
+
+var c03Inits = map[string][]string{
+	"groups-installed":  {"ADD nh1@D a", "ADD nh2@D", "ADD nh1@V", "ADD nhg1@D {1}", "ADD nhg2@D {2}", "ADD nhg1@V {1}"},
+	"entries-installed": {"ADD nh1@D a", "ADD nh2@D", "ADD nh1@V", "ADD nhg1@D {1}", "ADD nhg2@D {2}", "ADD nhg1@V {1}", "ADD v4 p@D ->1", "ADD v4 p@V ->1", "ADD v6 q@D ->2", "ADD mpls 100@D ->1"},
 }
 
 var c16Letters = []string{
 	"ADD nh1@D a", "ADD nh1@D b", "DELETE nh1@D", "ADD nh1@V", "DELETE nh1@V",
-	"ADD nhg1@D {1}", "DELETE nhg1@D", "ADD nhg1@V {1}", "DELETE nhg1@V",
+	"ADD nhg1@D {1}", "ADD nhg1@D {1,2}", "ADD nh2@D", "DELETE nhg1@D", "ADD nhg1@V {1}", "DELETE nhg1@V",
 	"ADD v4 p@D ->1", "ADD v4 p@D ->1@V", "REPLACE v4 p@D ->1 meta", "DELETE v4 p@D", "ADD v4 p@V ->1", "DELETE v4 p@V",
 	"ADD v6 q@D ->1", "DELETE v6 q@D", "ADD mpls 100@D ->1", "DELETE mpls 100@D",
 	"FLUSH D", "FLUSH V", "FLUSH all",
@@ -172,5 +197,9 @@ func RunC16(rep *report.Report, tier string) {
 	for _, hc := range []HookConfig{HookAfterNIs, HookBeforeNIs} {
 		o := &Options{Letters: letters, Checks: Checks{Hooks: true}, Hook: hc}
 		Search(rep, fmt.Sprintf("rib/hook-config-%d", hc), o, depth, dl)
+		for _, name := range []string{"held-operations", "entries-installed"} {
+			o := &Options{Letters: letters, Checks: Checks{Hooks: true}, Hook: hc, Init: Alphabet(ribInits[name]...)}
+			Search(rep, fmt.Sprintf("rib/hook-config-%d/from-%s", hc, name), o, depth-1, dl)
+		}
 	}
 }
